@@ -127,9 +127,10 @@ def handleOps2 (op : String) (args impl : List String) : Verdict :=
   | "ops.optimize", rest =>
     match decGraph rest with
     | some (g, []) =>
-      compare (encGraph (Graph.optimize g)) (joinToks impl) fun _ =>
+      -- `same=true`: times, numbers, voices, run texts and in-cue instants of every cue are untouched
+      compare (encGraph (Graph.optimize g) ++ " same=true") (joinToks impl) fun _ =>
         match decGraph impl with
-        | some (h, []) => if Spec.consistentB g then sameGraph h (Spec.optimizeSpec g) else true
+        | some (h, ["same=true"]) => if Spec.consistentB g then sameGraph h (Spec.optimizeSpec g) else true
         | _ => false
     | _ => .bad "ops.optimize: parse"
   | _, _ => handleOps op args impl
